@@ -205,7 +205,7 @@ static void snap_data(const char *name)
     n = gd_getdata64(D, name, 0, 0, 0, 24, GD_COMPLEX128, v);
     sn(" data n%zu e%d", n, gd_error(D));
     for (i = 0; i < 2 * n && i < 48; i++) sn(" %a", v[i]);
-    n = gd_getdata64(D, name, 3, 1, 1, 2, GD_FLOAT64, v);
+    n = gd_getdata64(D, name, 0, 7, 0, 5, GD_FLOAT64, v);
     sn(" | n%zu e%d", n, gd_error(D));
     for (i = 0; i < n && i < 24; i++) sn(" %a", v[i]);
     sn("\n");
@@ -620,7 +620,7 @@ int main(int argc, char **argv)
         }
         if (k % 8 == 7 || k == n - 1) {
           /* interleaved valid call: must keep working */
-          unsigned char b[8]; size_t r = gd_getdata64(D, "raw", 1, 0, 1, 0, GD_UINT8, b);
+          unsigned char b[8]; size_t r = gd_getdata64(D, "raw", 0, 2, 0, 2, GD_UINT8, b);
           if (r != 2 || gd_error(D) || b[0] != 2 || b[1] != 3) probe_bad++;
         }
       }
